@@ -188,6 +188,12 @@ func (s *Sink) Fail(js map[string]any, what string) {
 
 func (s *Sink) Len() int { return len(s.terms) }
 
+// ReplayWants: no replay, or the replayed case is of the given op family (e.g. "net-") - the socket-level streams are
+// regenerated only for replays of their own failures
+func (s *Sink) ReplayWants(prefix string) bool {
+	return s.Filter == nil || strings.HasPrefix(fmt.Sprint(s.Filter["op"]), prefix)
+}
+
 func (s *Sink) Close() error {
 	if err := os.MkdirAll(s.Dir, 0o755); err != nil {
 		return err
